@@ -312,6 +312,24 @@ def gen_sbc_world(prop, root, w, tier):
                     f = {"op": "CELL", "_lref": li, "rank": rank}
             script.append(f)
             budget -= 1
+    # C13 pattern "lazy getter after a later clustering": the same structure is clustered twice
+    # with other radii / thresholds on the same instance, and the first call's handles are
+    # queried only afterwards
+    if prop == "C13" and rc.random() < 0.35:
+        client = int(rw.integers(n_clients))
+        script = scripts[client]
+        sid, a = sids[int(rw.integers(len(sids)))]
+        inst = _inst_name(policy if policy != "fresh" else "shared", client)
+        choices = [{}, {"radii": "vdw"}, {"bond_threshold": 0.4}, {"bond_threshold": 1.0},
+                   {"radii": {"custom": [float(x) for x in covalent_radii[a.numbers] * 0.7]}, "bond_threshold": 1.0},
+                   {"radii": {"custom": [float(x) for x in covalent_radii[a.numbers] * 1.25]}}]
+        i1, i2 = rw.choice(len(choices), 2, replace=False)
+        l1 = len(script)
+        script.append({"op": "CLUSTER", "s": sid, "params": choices[int(i1)], "seedspec": seed_strategy(a, rsd), "inst": inst})
+        script.append({"op": "CLUSTER", "s": sid, "params": choices[int(i2)], "seedspec": seed_strategy(a, rsd), "inst": inst})
+        for rank in range(3):
+            script.append({"op": "DIM", "_lref": l1, "rank": rank})
+        spec["config"]["lazy_after_recluster"] = True
     # C13: every handle gets at least one DIM, and a late repeated DIM
     if prop == "C13":
         for script in scripts:
